@@ -502,6 +502,7 @@ void TasmanianSparseGrid::integrate(std::vector<double> &q) const{
     integrate(q.data());
 }
 void TasmanianSparseGrid::differentiate(std::vector<double> const &x, std::vector<double> &jacobian) const {
+    if (x.size() != (size_t) getNumDimensions()) throw std::runtime_error("ERROR: in differentiate() x must match getNumDimensions()");
     size_t num_outputs = getNumOutputs();
     size_t num_dimensions = getNumDimensions();
     jacobian.resize(num_outputs * num_dimensions);
